@@ -210,6 +210,8 @@ static long failalloc_count = 1;
 static unsigned long alloc_counter;
 static unsigned long alloc_failed;
 static int alloc_fail_fd = -1;
+static int alloc_fail_fds[16];
+static int n_alloc_fail_fds;
 static size_t heap_peak;
 static unsigned long cap_violations;
 static int cur_read_fd = -1;
@@ -959,6 +961,7 @@ static int alloc_should_fail(void)
 				failalloc_count--;
 				alloc_failed++;
 				alloc_fail_fd = cur_read_fd;
+				if (n_alloc_fail_fds < 16) alloc_fail_fds[n_alloc_fail_fds++] = cur_read_fd;
 				if (failalloc_count == 0) failalloc_in = -1;
 				return 1;
 			}
@@ -1081,6 +1084,9 @@ static void put_stat(void)
 	ds_printf(&out, "\"heap\":%zu,\"heap_peak\":%zu,\"cap_violations\":%lu,\"peers\":%d,\"fds\":{\"listener\":%d,\"stream\":%d,\"epoll\":%d,\"timer\":%d},\"regs\":%d,\"allocs\":%lu,\"alloc_failed\":%lu,\"alloc_fail_fd\":%d,\"now\":%llu,\"n_hygiene\":%lu,\"real_fds\":%d,",
 	          cjet_get_alloc_size(), heap_peak, cap_violations, get_number_of_peers(), cnt[K_LISTENER], cnt[K_STREAM], cnt[K_EPOLL], cnt[K_TIMER], regs, alloc_counter, alloc_failed, alloc_fail_fd,
 	          (unsigned long long)now_ns, n_hyg, n_real_fds);
+	ds_put(&out, "\"alloc_fail_fds\":[");
+	for (int i = 0; i < n_alloc_fail_fds; i++) ds_printf(&out, "%s%d", i ? "," : "", alloc_fail_fds[i]);
+	ds_put(&out, "],");
 	ds_put(&out, "\"timers\":[");
 	int first = 1;
 	for (int fd = SIM_FD_BASE; fd < next_fd; fd++) {
